@@ -74,6 +74,11 @@ fn main() {
         let data = std::fs::read(file).unwrap_or_default();
         let raw = serde_json::json!({"Raw": {"bytes": hex::encode(&data)}});
         let case = match (prop.as_str(), target.as_str()) {
+            ("C16", "interptx") => {
+                let (first, rest) = data.split_first().map(|(f, r)| (*f as usize, r.to_vec())).unwrap_or((0, vec![]));
+                let ul = first.min(rest.len());
+                serde_json::json!({"RawTx": {"unlock": hex::encode(&rest[..ul]), "lock": hex::encode(&rest[ul..])}})
+            }
             ("C01", _) | ("C02", _) | ("C16", _) => raw,
             ("C17", _) => serde_json::json!({"Text": {"text": String::from_utf8_lossy(&data)}}),
             ("C09", "decoders") => {
@@ -128,6 +133,21 @@ fn main() {
         for (k, prog) in ["5152935387", "51639167526851", "0102030405767c7e7f", "54557693a0", "006b6c756a51", "02aabb8276a87c"].iter().enumerate() {
             write("interp", format!("p{}", k), &hex::decode(prog).unwrap());
         }
+        // transaction-context programs: <len of unlocking script> <unlocking script> <locking script>
+        let sig = format!("47{}41", "30440220".to_string() + &"11".repeat(32) + "0220" + &"22".repeat(32));
+        let key = "210279be667ef9dcbbac55a06295ce870b07029bfcdb2dce28d959f2815b16f81798";
+        let unlock = hex::decode(format!("{}{}", sig, key)).unwrap();
+        for (k, lock) in ["76a914000000000000000000000000000000000000000088ac", "ac", "5163616161abab68ac", "0063ab67ab6161ab68ad51", "7c51217c52ae", "ab7cab63ab68ac"].iter().enumerate() {
+            let mut v = vec![unlock.len() as u8];
+            v.extend(&unlock);
+            v.extend(hex::decode(lock).unwrap());
+            write("interptx", format!("t{}", k), &v);
+        }
+        let multi = hex::decode(format!("00{}{}", sig, sig)).unwrap();
+        let mut v = vec![multi.len() as u8];
+        v.extend(&multi);
+        v.extend(hex::decode(format!("5163ab6852{}{}52ae", key, key)).unwrap());
+        write("interptx", "m0".to_string(), &v);
         return;
     }
 
